@@ -57,7 +57,7 @@ func ZzC08() {
 		sc.d.failN = 1
 		faulted = true
 	}
-	err := s.DeleteRange(ctx, sc.from, sc.to)
+	err := s.DeleteRange(zzTagged(ctx, "del"), sc.from, sc.to)
 	zz.ObserveBool("err_nil", err == nil)
 	if faulted && err != nil {
 		zz.Reach("failed-part-way")
@@ -80,6 +80,11 @@ func ZzC08() {
 			zz.Assert(err == nil, "retrying a tail-side deletion completes it")
 		}
 		// (when only the rewrite of the tail pointer failed there is nothing left to retry)
+		// known finding: on the context-aware datastore the deletes of the whole range are one batch; when the
+		// commit of that batch fails the tail is moved past the range all the same
+		if zz.Known("C08-failed-batch-commit-moves-tail", sc.cfg.flavour == 1 && sc.d.failedTaggedCommit == "del") {
+			zz.Reach("failed-batch-commit")
+		}
 		for i := 0; i < K; i++ {
 			bh, bx, has := zzReadable(ctx, s, sc.chain[i])
 			if sc.inRange(i) {
